@@ -297,3 +297,22 @@ CHECKS["C15"] = {
     ],
     "floors": {"C15/pool": {"eviction": 0.3, "expiry_released_mid_history": 0.04, "expiry_fired_and_parked": 0.2}},
 }
+
+CHECKS["C19"] = {
+    "pkg": "./signal",
+    "level": "exploration",
+    "exhaustive": "sub-check C19/exhaustive enumerates ALL interleavings, at the granularity of the verif scheduling points inside setSlow/signalSlow/doSlow/Close plus a harness point before every operation, of a fixed family of 11 (quick) / 15 (thorough) small programs over Signal and Chan by stateless depth-first re-execution; the random sub-check samples beyond",
+    "rule": ("Programs are 2..3 goroutines x 1..3 operations over one drpcsignal.Signal (Set(e_i), Get, Err, IsSet, Signal()+non-blocking poll followed by IsSet/Get, Wait) or one drpcsignal.Chan in its two usage families "
+             "({Make, Get, Send, Recv} with balanced sends/receives; {Close once, Get}). A goroutine is only runnable when it is parked at a scheduling point (a goroutine waiting for the primitive's mutex is simply not enabled); "
+             "a schedule is the sequence of which parked goroutine is released. exhaustive: every schedule of each fixed program (6..51 for two goroutines, more for three); random: rapid-drawn programs with up to 60 schedule choices. "
+             "Oracle: exactly one Set returns true; every Get/Err/IsSet that starts after some Set returned sees the winner's error; an observer that finds the channel closed immediately reads IsSet()==true and the winner's error; all Signal()/Get() calls return the same channel, "
+             "closed once the winning Set / Close returned; every Wait returns (no lost wake-up: no goroutine left blocked with nothing enabled); no panic. "
+             "Non-trivial: every enumerated program; a random case with >= 4 scheduling steps. Distinct by program + schedule."),
+    "assumptions": ["interleavings are enumerated between scheduling points, not between individual memory operations; weak-memory reorderings of the atomics are outside this check",
+                    "misuse by the channel contract is not generated: double Chan.Close, Send on a closed Chan, Full concurrently with Send/Recv"],
+    "subs": [
+        {"test": "TestC19Exhaustive", "prop": "C19/exhaustive", "quick": 1, "thorough": 1, "shards": 1, "gomaxprocs": 1},
+        {"test": "TestC19Random", "prop": "C19/random", "quick": 24000, "thorough": 800000, "shards_quick": 16, "shards_thorough": 16, "gomaxprocs": 1},
+    ],
+    "floors": {"C19/random": {"signal": 0.4, "chan": 0.2, "goroutines_3": 0.3}},
+}
